@@ -21,6 +21,7 @@
    Every theorem quantifies over ALL duty lists (any slots before, at and after the current one,
    any number of committees and validators per committee, any order), all digests, sizes, targets. *)
 From Verif Require Import Lib.Base Model.C14_Subscriptions Model.C14_Spec Proofs.C14 Check.C14 Proofs.C14_Check.
+From Coq Require Import Sorting.Permutation.
 
 (* ------------------------------------------------------------------------------------------- *)
 (* The selection rule.                                                                         *)
@@ -135,6 +136,25 @@ Theorem C14_stored_entry_closed_form :
     choose target (sort_duties duties) (members sign_ok (sort_duties duties) s c).
 Proof. exact info_entry. Qed.
 Print Assumptions C14_stored_entry_closed_form.
+
+(* The order of the beacon node's answer does not matter (nor what an unstable sort does with it),
+   as long as no validator is listed twice for one slot and committee. *)
+Theorem C14_info_independent_of_answer_order :
+  forall target sign_ok duties duties',
+    Permutation duties duties' -> NoDup (map dtriple duties) ->
+    subscription_info target sign_ok duties = subscription_info target sign_ok duties'.
+Proof. exact info_order_independent. Qed.
+Print Assumptions C14_info_independent_of_answer_order.
+
+(* calculateSubscriptionInfo runs one goroutine per slot, each walking its validators in order;
+   the model walks MergeDuties' list [M] once.  Every schedule of the goroutines -- every
+   interleaving [M'] that keeps each slot's own order -- records the same entry for every pair. *)
+Theorem C14_info_independent_of_goroutine_schedule :
+  forall target L M M' s c,
+    (forall s, filter (same_slot s) M' = filter (same_slot s) M) ->
+    find_sub s c (fold_left (add_member target L) M' []) = find_sub s c (fold_left (add_member target L) M []).
+Proof. exact info_schedule_independent. Qed.
+Print Assumptions C14_info_independent_of_goroutine_schedule.
 
 (* A committee with at least one selected validator is recorded -- and, when in the future,
    subscribed -- with a selected validator and that validator's own slot signature. *)
